@@ -41,7 +41,7 @@ Unrelated == TypeDef("Zed", "pub", <<Field("v", "pub", <<>>, TNm("u64"), None, F
 UnrelatedV == [TypeDef("Zed", "pub", <<Field("w", "pub", <<>>, TCPtr(TNm("u8")), None, FALSE)>>)
                  EXCEPT !.vft = Vft(None, <<Func("vf", "pub", <<>>, <<ArgM>>, TNone, None, None, "")>>)]
 
-MkInput(ptr, name, defs, uses, pert) ==
+MkInput(ptr, name, defs, uses, pert, en) ==
   LET R == TypeDef("R", "pub", <<Field("f", "pub", <<>>, TNm(name), None, FALSE)>>)
       g == Func("g", "pub", <<>>, <<ArgC, Arg("p", TCPtr(TNm(name)))>>, TMPtr(TNm(name)), 4096, None, "")
       own(pl) == IF pl \in defs THEN <<DefOf(name, pl)>> ELSE <<>>
@@ -57,7 +57,9 @@ MkInput(ptr, name, defs, uses, pert) ==
       RN == [TypeDef("RN", "pub", <<Field("w", "pub", <<>>, TNm("W"), None, FALSE)>>
                                     \o (IF "n" \in defs THEN <<Field("own", "pub", <<>>, TNm(name), None, FALSE)>> ELSE <<>>))
                EXCEPT !.packed = TRUE]
-      mm == [Module(<<"m">>, [i \in DOMAIN uses |-> UsePath(name, uses[i])], own("m") \o <<Own, R2>>)
+      (* an enum over the name: accepted only when the name denotes the built-in integer type *)
+      En == EnumDef("En", "pub", TNm(name), <<Variant("A", NumNone, FALSE)>>)
+      mm == [Module(<<"m">>, [i \in DOMAIN uses |-> UsePath(name, uses[i])], own("m") \o <<Own, R2>> \o (IF en THEN <<En>> ELSE <<>>))
                EXCEPT !.impls = <<Impl("R", <<g>>)>>,
                       (* an extern value mentions the name too: its accessor type reveals the binding *)
                       !.evals = <<ExtVal("gx", "pub", TCPtr(TNm(name)), 8192)>>]
@@ -65,14 +67,17 @@ MkInput(ptr, name, defs, uses, pert) ==
                                   \o (IF pert = "shadowown" THEN <<[Own EXCEPT !.fields[1].ty = TArr(TNm("u8"), 8)]>> ELSE <<>>)
                                   \o (IF pert = "enclosing" THEN <<W(2)>> ELSE <<>>)
                                   (* a type in the enclosing module named like the nested module *)
-                                  \o (IF pert = "shadowmod" THEN <<TypeDef("n", "pub", <<>>)>> ELSE <<>>))
+                                  (* (it mentions the name when module a defines it: analysed in a's context, not a::n's) *)
+                                  \o (IF pert = "shadowmod"
+                                      THEN <<TypeDef("n", "pub", IF "a" \in defs THEN <<Field("q", "pub", <<>>, TNm(name), None, FALSE)>> ELSE <<>>)>>
+                                      ELSE <<>>))
       mb == Module(<<"b">>, <<>>, own("b") \o <<W(4)>> \o extraB)
       mn == Module(<<"a", "n">>, <<<<"b">>>>, own("n") \o <<RN>>)
       mz == Module(<<"zz">>, <<<<"a">>>>, <<DefOf(name, "b"), Unrelated>>)
       mraw == Module(<<"r#m">>, <<>>, <<Unrelated>>)
       mdot == Module(<<"a.x", "n">>, <<<<"b">>>>, <<Unrelated>>)
       base == <<mm, ma, mb, mn>>
-  IN [ptr |-> ptr, gen |-> [ptr |-> ptr, name |-> name, defs |-> defs, uses |-> uses],
+  IN [ptr |-> ptr, gen |-> [ptr |-> ptr, name |-> name, defs |-> defs, uses |-> uses, en |-> en],
       mods |-> CASE pert = "addmod" -> base \o <<mz>>
                  [] pert = "addfirst" -> <<mz>> \o base
                  [] pert = "rawtwin" -> base \o <<mraw>>
@@ -81,11 +86,12 @@ MkInput(ptr, name, defs, uses, pert) ==
                  [] pert = "mlast" -> <<ma, mb, mn, mm>>
                  [] OTHER -> base]
 
-BaseOf(inp) == MkInput(inp.gen.ptr, inp.gen.name, inp.gen.defs, inp.gen.uses, "none")
+BaseOf(inp) == MkInput(inp.gen.ptr, inp.gen.name, inp.gen.defs, inp.gen.uses, "none", inp.gen.en)
 
 MCInit ==
-  /\ \E ptr \in Ptrs, name \in TypeNames, defs \in DefSets, uses \in UseSeqs, pert \in Perts :
-        input = MkInput(ptr, name, defs, uses, pert)
+  /\ \E ptr \in Ptrs, name \in TypeNames, defs \in DefSets, uses \in UseSeqs, pert \in Perts, en \in BOOLEAN :
+        /\ (en => (name = "u16" /\ pert = "none"))
+        /\ input = MkInput(ptr, name, defs, uses, pert, en)
   /\ InitRest
 
 MCSpec == MCInit /\ [][Next]_vars /\ WF_vars(Next)
@@ -106,9 +112,16 @@ BuiltinSizeOf(n) == Builtins[CHOOSE i \in DOMAIN Builtins : Builtins[i][1] = n][
 MFile(files) == CHOOSE f \in files : f.path = <<"m">>
 NFile(files) == CHOOSE f \in files : f.path = <<"a", "n">>
 
+HasEn == input.gen.en
+ShouldAccept == Bound # <<>> /\ (HasEn => Bound = <<"u16">>)
+AMod == input.mods[CHOOSE i \in DOMAIN input.mods : input.mods[i].path = <<"a">>]
+(* the type `n` of module a (perturbation shadowmod) mentions the name: it binds in a's context *)
+ShadowBound == IF \E i \in DOMAIN AMod.defs : AMod.defs[i].name = "n" /\ AMod.defs[i].fields # <<>>
+               THEN Bind(input, AMod, Name) ELSE <<>>
+
 Inv_C11 ==
   Terminal =>
-    /\ Accepted <=> Bound # <<>>
+    /\ Accepted <=> ShouldAccept
     /\ Accepted =>
          LET r == CrateItemAt(Crate, <<"m", "R">>)
              want == RRaw(Bound)
@@ -117,6 +130,8 @@ Inv_C11 ==
          IN /\ r.fields[1].ty = want
             /\ reg[<<"m", "R">>].res.size = wsize + 3
             /\ g.args[2].ty = RCPtr(want) /\ g.ret = RMPtr(want)
+            /\ (ShadowBound # <<>> => CrateItemAt(Crate, <<"a", "n">>).fields[1].ty = RRaw(ShadowBound))
+            /\ (HasEn => reg[<<"m", "En">>].res.size = 2)
             /\ \E i \in DOMAIN MFile(out).evals : MFile(out).evals[i].name = "gx" /\ MFile(out).evals[i].ty = RCPtr(want)
 
 (* the perturbations leave everything m reaches untouched; those that do not add to module b *)
@@ -144,7 +159,7 @@ RegView ==
 ReplayRecord ==
   [group |-> "scope", input |-> input, order |-> added, sched |-> hist,
    accepted |-> Accepted, err |-> err, pviol |-> IF Terminal THEN PViol ELSE {},
-   oracle |-> [bound |-> Bound,
+   oracle |-> [bound |-> Bound, accept |-> ShouldAccept, shadowBound |-> ShadowBound, en |-> HasEn,
                size |-> IF Bound = <<>> THEN None ELSE 3 + (IF Len(Bound) = 1 THEN BuiltinSizeOf(Bound[1]) ELSE SizeOfPath(Bound)),
                kf |-> <<>>],
    mirror |-> [reg |-> RegView, out |-> out]]
